@@ -52,11 +52,20 @@ def _visible(text):
 
 
 # ----------------------------------------------------------------------------- running a history on the real code
+_CAPABLE = [False]  # ANSI by a capable stream and an ordinary ANSI formatter instead of a forced formatter
+
+
 def _new_output(ansi):
     from clikit.api.io.output import Output
     from clikit.formatter import AnsiFormatter, PlainFormatter
     from clikit.io.output_stream import BufferedOutputStream
 
+    if ansi and _CAPABLE[0]:
+        class CapableStream(BufferedOutputStream):
+            def supports_ansi(self):
+                return True
+        stream = CapableStream()
+        return Output(stream, AnsiFormatter(forced=False)), stream
     stream = BufferedOutputStream()
     out = Output(stream, AnsiFormatter(forced=True) if ansi else PlainFormatter())
     return out, stream
@@ -377,10 +386,15 @@ def bounded(ctx):
                 break
             width = ctx.rng.choice([5, 10, 20, 80])
             ops, wide = _random_ops(ctx.rng, width, ctx.rng.randint(5, 40), partial, 3)
-            r = _run(ops, width, 1, 0)
-            ctx.case([width, ops], nontrivial=wide, sample="w=%d %s" % (width, _short(ops)))
+            # ANSI support comes from a forced formatter or (every other sequence) from a capable stream and a plain ANSI formatter
+            _CAPABLE[0] = bool(_ & 1) if isinstance(_, int) else False
+            try:
+                r = _run(ops, width, 1, 0)
+            finally:
+                capable, _CAPABLE[0] = _CAPABLE[0], False
+            ctx.case([width, ops, capable], nontrivial=wide, sample="w=%d %s%s" % (width, _short(ops), " (capable stream)" if capable else ""))
             if not r["ok"]:
-                fails.add(r["cls"], r["what"], {"ops": ops[: r["step"] + 1], "width": width, "sections": 1})
+                fails.add(r["cls"], r["what"], {"ops": ops[: r["step"] + 1], "width": width, "sections": 1, "capable": capable})
         ctx.done(exhaustive=False, note=fails.note())
 
     # ---- 2b. sections with an indentation of their own
@@ -444,5 +458,9 @@ def replay_bounded(check_id, failure):
     if w.get("plain"):
         r = run_plain(ops, w.get("width", W), w.get("sections", 1))
     else:
-        r = _run(ops, w.get("width", W), w.get("sections", 1), 0)
+        _CAPABLE[0] = bool(w.get("capable"))
+        try:
+            r = _run(ops, w.get("width", W), w.get("sections", 1), 0)
+        finally:
+            _CAPABLE[0] = False
     return {"fails": not r["ok"], "detail": r.get("what", "")}
